@@ -194,8 +194,20 @@ def certify_nonaffine(r, conv, tset):
     names = r.n.variables() | r.d.variables()
     tat, odd = _target_atoms(names, conv, tset)
     if odd:
+        # one transcendental power b**t: not affine as soon as the rational
+        # function really depends on it (two values at one exact point differ)
         if len(odd) == 1 and _genuinely_nonaffine_power(odd[0], tset):
-            return True
+            pname = conv.opaque_names[walk.key(odd[0], strict=True)]
+            for trial in range(3):
+                pt = {a: Fraction(_PRIMES[(3 * i + trial) % len(_PRIMES)], 1 + trial)
+                      for i, a in enumerate(sorted(names))}
+                try:
+                    v1 = r.eval({**pt, pname: Fraction(5, 3)})
+                    v2 = r.eval({**pt, pname: Fraction(-7, 2)})
+                except ZeroDivisionError:
+                    continue
+                if v1 != v2:
+                    return True
         return None
     if not (r.d.variables() & tat):
         return r.n.degree_in(tat) >= 2
@@ -221,12 +233,13 @@ def certify_nonaffine(r, conv, tset):
 # {{{ collect
 
 def _fold_bits(e):
-    """None if *e* has no float constant; else a bound on the mantissa bits that
-    any +/* folding of e's constant leaves (each used once) can need: such a value
-    is an integer over 2**K with K the sum of the leaves' binary denominators and
-    magnitude below prod(|c|+2)."""
+    """(has float, has numpy integer, bits): bits bounds the size of any +/*
+    folding of e's constant leaves (each used once): such a value is an integer
+    over 2**K, K the sum of the leaves' binary denominators, of magnitude below
+    prod(|c|+2).  Python ints fold exactly; floats round beyond 53 bits and
+    numpy integers wrap beyond 63."""
     bits = 0
-    has_float = False
+    has_float = has_np = False
     for _, n in walk.occurrences(e):
         if isinstance(n, (bool, np.bool_)) or isinstance(n, p.Expression):
             continue
@@ -236,8 +249,9 @@ def _fold_bits(e):
             bits += (abs(f.numerator) // f.denominator + 2).bit_length() \
                 + f.denominator.bit_length() - 1
         elif isinstance(n, (int, np.integer)):
+            has_np = has_np or isinstance(n, np.integer)
             bits += (abs(int(n)) + 2).bit_length()
-    return bits if has_float else None
+    return has_float, has_np, bits
 
 
 _CONTAINERS = {"list": list, "tuple": tuple, "set": set, "frozenset": frozenset}
@@ -268,11 +282,13 @@ def check_collect(spec):
         raise HarnessError("targets must be null or a list of names")
     tset = None if targets is None else set(targets)
     cls = syn(e, tset)
-    fb = _fold_bits(e)
-    if fb is not None:
-        if fb > 52:
-            return res.skip("float constants whose folding may round")
+    has_float, has_np, bits = _fold_bits(e)
+    if (has_float and bits > 52) or (has_np and bits > 62):
+        return res.skip("float/numpy constants whose folding may round or wrap")
+    if has_float:
         res.label("has-float")
+    if has_np:
+        res.label("has-np-int")
     conv = Conv()
     try:
         r = conv(e)
@@ -448,8 +464,8 @@ def _system(spec):
     """-> (unknowns, [(lhs, rhs)], conv, A, B, param atom names) or a skip reason."""
     unknowns = spec.get("unknowns")
     if not (isinstance(unknowns, list) and all(isinstance(u, str) for u in unknowns)
-            and len(set(unknowns)) == len(unknowns)):
-        raise HarnessError("unknowns must be a list of distinct names")
+            and len(set(unknowns)) == len(unknowns) and unknowns):
+        raise HarnessError("unknowns must be a non-empty list of distinct names")
     eqs = []
     conv = Conv()
     polys = []
@@ -723,9 +739,11 @@ def _var(nm):
 
 
 class _ExprGen:
-    def __init__(self, rng, targets, free_vars, none_mode, composites, floats=False):
+    def __init__(self, rng, targets, free_vars, none_mode, composites, floats=False,
+                 npints=False):
         self.rng = rng
         self.floats = floats
+        self.npints = npints
         self.t = list(targets)
         self.n = list(free_vars)
         self.none_mode = none_mode
@@ -742,8 +760,9 @@ class _ExprGen:
         if r < 0.90:
             if self.floats:
                 return ["Const", "float", rng.choice((0.5, -1.5, 2.0, 0.25, 4.0, -0.5))]
-            return _ci(rng.choice((10, -12, 100, 2**40 + 1, -(2**33))))
-        if r < 0.95:
+            if not self.npints:
+                return _ci(rng.choice((10, -12, 100, 2**40 + 1, -(2**33))))
+        if r < 0.95 and self.npints:
             return ["Const", "np.int64", rng.choice((1, 3, -2, 6))]
         return _ci(rng.choice((6, -4, 8, 9)))
 
@@ -911,7 +930,8 @@ def collect_case(rng):
         k = rng.choice((1, 1, 2, 2, 3))
         tvars = rng.sample(VARS, k)
         fvars = [v for v in VARS if v not in tvars]
-    g = _ExprGen(rng, tvars, fvars, none_mode, composites, floats=rng.random() < 0.3)
+    g = _ExprGen(rng, tvars, fvars, none_mode, composites, floats=rng.random() < 0.3,
+                 npints=rng.random() < 0.25)
     g.plant = None
     d = rng.choice((1, 2, 2, 3, 3, 4))
     if rng.random() < 0.3:
@@ -1151,11 +1171,11 @@ def gauss_case(rng):
 def generate(ctx):
     rnd = st.randoms(use_true_random=True)
     ctx.run_given(rnd, lambda rng: ctx.judge("collect", collect_case(rng)),
-                  ctx.n(36000, 1080000))
+                  ctx.n(36000, 1440000))
     ctx.run_given(rnd, lambda rng: ctx.judge("solve", system_case(rng)),
-                  ctx.n(20000, 600000))
+                  ctx.n(20000, 800000))
     ctx.run_given(rnd, lambda rng: ctx.judge("gauss", gauss_case(rng)),
-                  ctx.n(8000, 240000))
+                  ctx.n(8000, 320000))
 
 
 MANIFEST = {
